@@ -7,7 +7,9 @@
    * the MD engines: [streams] — the k-th call of propagate (in call order, whichever
      engine object is used) returns the frames of the k-th list, the first element being
      the frame the engine emits for the initial phase point; the stop rule applied to the
-     list is EngineM.propagate (= EngineBase.add_to_path);
+     list is MovesM.propagate_fixed (= EngineBase.add_to_path as it is now, with
+     "if path.length == path.maxlen and not success": a frame that crosses an interface is a
+     success also when it is the maxlen-th frame);
    * dump_phasepoint: [dumpf label tag] is the config a dumped copy points to;
    * random numbers: [draws], consumed left to right;
    * energies: [vpot_of tag] is the potential energy stored with the frame of that tag
@@ -23,6 +25,7 @@
 From Coq Require Import ZArith QArith List Bool Lia.
 Import ListNotations.
 From Inf Require Import model.PathM model.EngineM model.WeightM.
+From Inf Require model.MovesM.     (* not imported: only the repaired stop rule is used *)
 Open Scope Z_scope.
 
 Inductive status :=
@@ -92,14 +95,14 @@ Definition second_frame (p : path) : option frame := nth_error (pts p) 1.
 Definition last_frame (p : path) : option frame := nth_error (rev (pts p)) 0.      (* [-1] *)
 Definition last2_frame (p : path) : option frame := nth_error (rev (pts p)) 1.     (* [-2] *)
 
-(* engine.propagate(path, ens_set, system, reverse): next stream, EngineM stop rule *)
+(* engine.propagate(path, ens_set, system, reverse): next stream, current stop rule *)
 Definition engine_call (p : path) (streams : list (list frame)) (init : frame) (rv : bool)
            (l r : Z) : res (path * list (list frame) * call) :=
   match streams with
   | [] => Err EExhausted
   | [] :: _ => Err EExhausted
   | (f :: tl) :: rest =>
-      match propagate p f tl l r with
+      match MovesM.propagate_fixed p f tl l r with
       | PR p' _ n => Ok (p', rest, mkCall init rv l r (maxlen p) n)
       | PRExhausted _ => Err EExhausted
       | PRError => Err ERaise
